@@ -27,6 +27,13 @@ thread_local! {
 
     // If nonzero, the definition-order check panics once `ORDER_CHECK_CALLS` exceeds this cap.
     static ORDER_CHECK_CALLS_CAP: Cell<u64> = const { Cell::new(0) };
+
+    // Number of invocations of the recursive passes that run after the packrat parser proper
+    // (error collection, reassociation, variable resolution, definition traversal).
+    static POST_PARSE_CALLS: Cell<u64> = const { Cell::new(0) };
+
+    // If nonzero, those passes panic once `POST_PARSE_CALLS` exceeds this cap.
+    static POST_PARSE_CALLS_CAP: Cell<u64> = const { Cell::new(0) };
 }
 
 // A snapshot of all the counters.
@@ -37,6 +44,7 @@ pub struct Counters {
     pub shift_unresolved_refused: u64,
     pub parse_calls: u64,
     pub order_check_calls: u64,
+    pub post_parse_calls: u64,
 }
 
 pub fn open_unresolved() {
@@ -77,6 +85,19 @@ pub fn order_check_call() {
     );
 }
 
+pub fn post_parse_call() {
+    let calls = POST_PARSE_CALLS.with(|counter| {
+        counter.set(counter.get() + 1);
+        counter.get()
+    });
+
+    let cap = POST_PARSE_CALLS_CAP.with(Cell::get);
+    assert!(
+        cap == 0 || calls <= cap,
+        "verif: post-parse pass call cap of {cap} exceeded",
+    );
+}
+
 // Read all the counters.
 pub fn snapshot() -> Counters {
     Counters {
@@ -85,6 +106,7 @@ pub fn snapshot() -> Counters {
         shift_unresolved_refused: SHIFT_UNRESOLVED_REFUSED.with(Cell::get),
         parse_calls: PARSE_CALLS.with(Cell::get),
         order_check_calls: ORDER_CHECK_CALLS.with(Cell::get),
+        post_parse_calls: POST_PARSE_CALLS.with(Cell::get),
     }
 }
 
@@ -95,6 +117,7 @@ pub fn reset() {
     SHIFT_UNRESOLVED_REFUSED.with(|counter| counter.set(0));
     PARSE_CALLS.with(|counter| counter.set(0));
     ORDER_CHECK_CALLS.with(|counter| counter.set(0));
+    POST_PARSE_CALLS.with(|counter| counter.set(0));
 }
 
 // Set the cap on parsing function invocations (0 disables the cap).
@@ -105,4 +128,9 @@ pub fn set_parse_calls_cap(cap: u64) {
 // Set the cap on definition-order check invocations (0 disables the cap).
 pub fn set_order_check_calls_cap(cap: u64) {
     ORDER_CHECK_CALLS_CAP.with(|counter| counter.set(cap));
+}
+
+// Set the cap on invocations of the passes that follow parsing (0 disables the cap).
+pub fn set_post_parse_calls_cap(cap: u64) {
+    POST_PARSE_CALLS_CAP.with(|counter| counter.set(cap));
 }
